@@ -354,6 +354,11 @@ func RunC16(t *Trace, st *Stats) *Violation {
 	if !enumerate {
 		st.Evals++
 		_, v := runFaultPlan(t, t.Faults, st)
+		if v != nil && t.Extra != nil {
+			if loc, ok := t.Extra["locus"].(string); ok {
+				v.Sig = v.Sig + "@" + loc
+			}
+		}
 		return v
 	}
 	every := t.Extra["every_byte"] == true
@@ -393,6 +398,7 @@ func RunC16(t *Trace, st *Stats) *Violation {
 		seen[v.Sig] = true
 		pt := t.Clone()
 		pt.Extra["enumerate"] = false
+		pt.Extra["locus"] = locus
 		pt.Faults = fs
 		if st.Report != nil {
 			return !st.Report(pt, v)
